@@ -424,12 +424,13 @@ func flagLevels(decls []flagDecl) map[string]map[string]bool {
 
 // flagRead is a c.String/Int/Bool/IsSet("name") call with a constant name.
 type flagRead struct {
-	Fn      *ssa.Function
-	Call    *ssa.Call
-	Method  string
-	Name    string
-	OnIndex bool      // receiver is an element of c.Lineage()
-	Index   ssa.Value // its index expression
+	Fn       *ssa.Function
+	Call     *ssa.Call
+	Method   string
+	Name     string
+	LoopSite *ssa.Call // the call, in the function that walks the lineage, that hands the element on (nil: the read itself)
+	OnIndex  bool      // receiver is an element of c.Lineage()
+	Index    ssa.Value // its index expression
 }
 
 // flagAccess: the call reads a command-line flag — a method of *cli.Context, or
@@ -582,26 +583,43 @@ func collectFlagReads(p *core.Program) []flagRead {
 				if !isFlag {
 					continue
 				}
-				cst, ok := nameArg.(*ssa.Const)
-				if !ok || cst.Value == nil || cst.Value.Kind() != constant.String {
+				var names []string
+				literal := false
+				if cst, ok := nameArg.(*ssa.Const); ok && cst.Value != nil && cst.Value.Kind() == constant.String {
+					names = []string{constant.StringVal(cst.Value)}
+					literal = true
+				} else if ns, ok := flagNames(p, nameArg, 3); ok && len(ns) > 0 {
+					names = ns // the name comes in through a parameter of a helper: one read per name its callers pass
+				}
+				if len(names) == 0 {
 					out = append(out, flagRead{Fn: fn, Call: call, Method: m, Name: ""})
 					continue
 				}
-				fr := flagRead{Fn: fn, Call: call, Method: m, Name: constant.StringVal(cst.Value)}
-				// receiver: *IndexAddr(Lineage(), i) loaded
-				recv := call.Call.Value
-				if !call.Call.IsInvoke() {
-					recv = call.Call.Args[0]
-				}
-				if u, ok := recv.(*ssa.UnOp); ok && u.Op == token.MUL {
-					if ia, ok := u.X.(*ssa.IndexAddr); ok {
-						if lc, ok := ia.X.(*ssa.Call); ok && isCtxMethod(core.Callee(&lc.Call), "Lineage") {
+				for ni, nm := range names {
+					fr := flagRead{Fn: fn, Call: call, Method: m, Name: nm}
+					_ = ni
+					// receiver: *IndexAddr(Lineage(), i) loaded
+					recv := call.Call.Value
+					if !call.Call.IsInvoke() {
+						recv = call.Call.Args[0]
+					}
+					if idx, ok := lineageElem(recv); ok {
+						fr.OnIndex = true
+						fr.Index = idx
+					} else if prm, isP := recv.(*ssa.Parameter); isP {
+						// the context is handed in by the callers: a helper (or a callback) that is given Lineage()[i]
+						if idx, site, ok := lineageFed(p, fn, prm); ok {
 							fr.OnIndex = true
-							fr.Index = ia.Index
+							fr.Index = idx
+							fr.LoopSite = site
 						}
 					}
+					if !literal && !fr.OnIndex {
+						// a name that is not spelled out, read from a context the rule cannot place in the lineage: not judged
+						fr.Name = ""
+					}
+					out = append(out, fr)
 				}
-				out = append(out, fr)
 			}
 		}
 	}
@@ -612,6 +630,20 @@ func collectFlagReads(p *core.Program) []flagRead {
 // +1 ascending, -1 descending, 0 unknown. It follows idx = phi ± c and
 // phi = [init, phi ± c].
 func loopDirection(idx ssa.Value) (dir int, startsAtLast bool) {
+	// len(l)-1-i with i counting up from 0: the mirror image of a descending index
+	if sub, ok := idx.(*ssa.BinOp); ok && sub.Op == token.SUB {
+		if inner, ok := sub.X.(*ssa.BinOp); ok && inner.Op == token.SUB {
+			if one, ok := inner.Y.(*ssa.Const); ok && one.Value != nil && one.Int64() == 1 {
+				if call, ok := inner.X.(*ssa.Call); ok {
+					if b, ok := call.Call.Value.(*ssa.Builtin); ok && b.Name() == "len" {
+						if d, _ := loopDirection(sub.Y); d == 1 {
+							return -1, true
+						}
+					}
+				}
+			}
+		}
+	}
 	v := idx
 	for i := 0; i < 4; i++ {
 		switch x := v.(type) {
@@ -704,7 +736,17 @@ func ruleLineage(c *core.Ctx, rule string, want func(name string) bool) {
 			continue
 		}
 		dir, last := loopDirection(fr.Index)
+		// "the first level that sets it wins": the branch taken when the flag is set leaves the walk at once
+		loopCall := fr.Call
+		if fr.LoopSite != nil {
+			loopCall = fr.LoopSite
+		}
+		firstHit := leavesAtFirstHit(loopCall)
 		switch {
+		case firstHit && dir == 1:
+			c.Discharge(rule, fname, disc, pos, "read from Lineage()[i], i ascending from the innermost context, leaving at the first level that sets the flag: the innermost level wins")
+		case firstHit && dir == -1:
+			c.Violate(rule, fname, disc, pos, "the lineage is walked from the root context inwards and left at the first level that sets --"+fr.Name+": the outermost (global) value wins over the sub-command's", nil)
 		case dir == -1 && last:
 			c.Discharge(rule, fname, disc, pos, "read from Lineage()[i], i descending from the root context: the innermost level is applied last and wins")
 		case dir == 1:
@@ -781,7 +823,7 @@ func ruleNoFlagSkipped(c *core.Ctx, rule string) {
 					if !ok || m != "IsSet" {
 						continue
 					}
-					names, _ := flagNames(c.P, nameArg, 0)
+					names, _ := flagNames(c.P, nameArg, 3)
 					qs = append(qs, question{b, names, c.P.Pos(in.Pos())})
 				}
 			}
@@ -866,4 +908,83 @@ func inInnerLoop(b, h *ssa.BasicBlock, body map[*ssa.BasicBlock]bool) bool {
 		}
 	}
 	return false
+}
+
+// leavesAtFirstHit: the block in which the flag is read (for IsSet: the branch taken when it is set) runs straight
+// into a return, without going round the loop again.
+func leavesAtFirstHit(call *ssa.Call) bool {
+	if call == nil || call.Block() == nil {
+		return false
+	}
+	b := call.Block()
+	if iff, ok := b.Instrs[len(b.Instrs)-1].(*ssa.If); ok && iff.Cond == ssa.Value(call) {
+		b = b.Succs[0]
+	}
+	for i := 0; i < 4 && b != nil; i++ {
+		switch t := b.Instrs[len(b.Instrs)-1].(type) {
+		case *ssa.Return:
+			return true
+		case *ssa.Jump:
+			if isLoopHead(b.Succs[0]) || len(b.Succs[0].Preds) > 1 && b.Succs[0].Dominates(b) {
+				return false
+			}
+			b = b.Succs[0]
+			_ = t
+		default:
+			return false
+		}
+	}
+	return false
+}
+
+// lineageElem: v is Lineage()[i] (loaded); returns i.
+func lineageElem(v ssa.Value) (ssa.Value, bool) {
+	if u, ok := v.(*ssa.UnOp); ok && u.Op == token.MUL {
+		if ia, ok := u.X.(*ssa.IndexAddr); ok {
+			if lc, ok := ia.X.(*ssa.Call); ok && isCtxMethod(core.Callee(&lc.Call), "Lineage") {
+				return ia.Index, true
+			}
+		}
+	}
+	return nil, false
+}
+
+// lineageFed: every call of fn the call graph knows hands an element of Lineage() to parameter prm; returns the
+// index expression of one of them and the call, in the function that walks the lineage, that hands it on.
+func lineageFed(p *core.Program, fn *ssa.Function, prm *ssa.Parameter) (ssa.Value, *ssa.Call, bool) {
+	pi := -1
+	for i, q := range fn.Params {
+		if q == prm {
+			pi = i
+		}
+	}
+	n := p.CallGraph().Nodes[fn]
+	if pi < 0 || n == nil || len(n.In) == 0 {
+		return nil, nil, false
+	}
+	var idx ssa.Value
+	var site *ssa.Call
+	for _, e := range n.In {
+		args := e.Site.Common().Args
+		ai := pi
+		if e.Site.Common().IsInvoke() {
+			ai = pi - 1
+		}
+		if ai < 0 || ai >= len(args) {
+			return nil, nil, false
+		}
+		st, _ := e.Site.(*ssa.Call)
+		ix, ok := lineageElem(args[ai])
+		if !ok {
+			// forwarded once more: a parameter of the caller that is itself fed from the lineage
+			if q, isP := args[ai].(*ssa.Parameter); isP && e.Caller.Func != fn {
+				ix, st, ok = lineageFed(p, e.Caller.Func, q)
+			}
+		}
+		if !ok {
+			return nil, nil, false
+		}
+		idx, site = ix, st
+	}
+	return idx, site, idx != nil
 }
